@@ -444,6 +444,20 @@ func (p *Path) hashUF(name string, in Slice, n int, real func([]byte) []byte) []
 	for _, a := range apps {
 		if arg != nil {
 			p.assertPC(tb.Implies(tb.Eq(a.arg, arg), tb.Eq(a.res, app)))
+			if p.e.cfg.CollisionFree {
+				// collision-free hash model (opt-in per harness): equal digests only for equal inputs
+				p.assertPC(tb.Implies(tb.Eq(a.res, app), tb.Eq(a.arg, arg)))
+			}
+		}
+	}
+	if p.e.cfg.CollisionFree {
+		// inputs of another length never collide with this one
+		for k, v := range p.extra {
+			if strings.HasPrefix(k, "hash:"+name+"/") && k != "hash:"+key {
+				for _, a := range v.([]hashApp) {
+					p.assertPC(tb.Not(tb.Eq(a.res, app)))
+				}
+			}
 		}
 	}
 	for i := 0; i < n; i++ {
